@@ -257,6 +257,38 @@ var scenarios = []scenario{
 				w.Flow(30, hDefault)
 			}
 		}},
+	{ // fourth-round C02f: what RawRecv handed out is kept by the caller while more traffic arrives (also for the next RPC)
+		name: "rawrecv-kept-while-traffic-continues", ok: func(c sys.Config) bool { return true },
+		run: func(w *sys.World, rng *rand.Rand) {
+			r := freshStream(w, "none", true)
+			if r == 0 {
+				return
+			}
+			w.Step(sys.Stim{K: "hstep", A: []string{"send1", "send2"}[rng.Intn(2)]})
+			w.Flow(8, nil)
+			if rt := w.FreeThread(); rt != "" {
+				w.Step(sys.Stim{K: "op", T: rt, Op: "RecvRaw", R: r})
+			}
+			relAllGates(w)
+			w.Flow(8, nil)
+			w.Step(sys.Stim{K: "hstep", A: "send1"})
+			w.Flow(8, nil)
+			if rt := w.FreeThread(); rt != "" {
+				w.Step(sys.Stim{K: "op", T: rt, Op: "Recv", R: r})
+			}
+			relAllGates(w)
+			w.Flow(8, nil)
+			if rng.Intn(2) == 0 { // the next RPC's reply lands in the same reader
+				endAll(w, func(w *sys.World) string { relAllGates(w); return "retnil" })
+				if t := w.FreeThread(); t != "" && w.NRPC() < sys.MaxRPC-1 {
+					w.Step(sys.Stim{K: "start", T: t, Op: "Invoke", Md: "none"})
+					for i := 0; i < 3; i++ {
+						relAllGates(w)
+						w.Flow(30, hDefault)
+					}
+				}
+			}
+		}},
 	{ // an undecodable message: the receiver gets the decoder's error, the stream lives on
 		name: "undecodable-message", ok: func(c sys.Config) bool { return true },
 		run: func(w *sys.World, rng *rand.Rand) {
